@@ -3,10 +3,96 @@ package c17
 // rapid generators for scripted upstream behaviour.
 
 import (
+	"fmt"
 	"net/netip"
+	"strings"
 
 	"pgregory.net/rapid"
 )
+
+// nameLens are total name lengths (characters, dots included, no trailing dot): single-character
+// and two-character names, one full 63-byte label and just beyond, two full labels, 200, and
+// every length from 240 up to the longest legal name (253; 255 bytes on the wire). The resolver
+// packs both queries into one buffer, so the longest names are where size arithmetic shows.
+var nameLens = func() []int {
+	l := []int{1, 2, 3, 63, 64, 65, 127, 128, 200}
+	for n := 240; n <= 253; n++ {
+		l = append(l, n, n) // weight the top range
+	}
+	return l
+}()
+
+// makeName builds a legal name of exactly total characters. style 0: labels as long as possible
+// (63), style 1: single-character labels, style 2: label lengths mixed by a PRNG. The first
+// character is tag, which keeps the names of one case distinct.
+func makeName(total, style int, seed uint64, tag byte) string {
+	prng := splitmix64(seed)
+	const alnum = "abcdefghijklmnopqrstuvwxyz0123456789"
+	var b strings.Builder
+	rem := total
+	for rem > 0 {
+		l := min(63, rem)
+		switch style {
+		case 1:
+			l = 1
+		case 2:
+			l = min(rem, []int{1, 2, 7, 31, 62, 63}[prng.next()%6])
+		}
+		if rem-l == 1 { // a dot needs a label after it
+			if l > 1 {
+				l--
+			} else {
+				l++
+			}
+		}
+		for range l {
+			b.WriteByte(alnum[prng.next()%uint64(len(alnum))])
+		}
+		rem -= l
+		if rem > 0 {
+			b.WriteByte('.')
+			rem--
+		}
+	}
+	n := []byte(b.String())
+	n[0] = tag
+	return string(n)
+}
+
+// genName draws a name: an everyday short one, or one of a boundary length and label structure.
+func genName(rt *rapid.T, idx int) string {
+	tag := byte('a' + idx)
+	if rapid.IntRange(0, 9).Draw(rt, "nameClass") < 4 {
+		return fmt.Sprintf("%c%d.verif.test", tag, idx)
+	}
+	return makeName(rapid.SampledFrom(nameLens).Draw(rt, "nameLen"), rapid.IntRange(0, 2).Draw(rt, "nameStyle"), rapid.Uint64().Draw(rt, "nameSeed"), tag)
+}
+
+// nameLabels classifies a name for the evidence.
+func nameLabels(name string) []string {
+	var out []string
+	switch l := len(name); {
+	case l >= 243:
+		out = append(out, "name-length>=243")
+		if l == 253 {
+			out = append(out, "name-length-253")
+		}
+	case l >= 200:
+		out = append(out, "name-length-200..242")
+	case l <= 2:
+		out = append(out, "name-length<=2")
+	}
+	for _, lab := range strings.Split(name, ".") {
+		if len(lab) == 63 {
+			out = append(out, "label-63-bytes")
+			break
+		}
+	}
+	if strings.Count(name, ".") >= 100 {
+		out = append(out, "name-100+labels")
+	}
+	return out
+}
 
 var ttlAlphabet = []uint32{0, 0, 1, 1, 2, 5, 5, 10, 29, 30, 31, 59, 60, 61, 300, 3600, 86400, 1<<31 - 1}
 
@@ -196,8 +282,10 @@ func genBigFixed(fam, target int, opt bool, ag *addrGen) wmsg {
 	if fam == 6 {
 		rrSize = 28
 	}
-	// header 12 + question (name <= 24 bytes encoded + 4) + OPT 11 + at least 13 for the padding record
-	n := max(1, (target-12-28-11-13-rrSize)/rrSize)
+	// header 12 + question (longest legal name: 255 bytes + 4) + OPT 11 + at least 13 for the padding
+	// record: the message never exceeds the target (nor 65535) whatever name is looked up; the
+	// padding records fill the rest (exactly, unless fewer than 13 bytes remain)
+	n := max(1, (target-12-259-11-13-rrSize)/rrSize)
 	m.Answers = make([]rr, 0, n)
 	for range n {
 		r := rr{Type: tA, TTL: ttl}
